@@ -524,8 +524,6 @@ def compatible(a, b, elems):
         return False                      # the stray value would be the value of the name
     if kinda == "loop" and adjacent and kindb == "value":
         return False                      # … or a value of the loop body
-    if kinda == "value" and la == "unexpected_value" and adjacent and kindb == "value":
-        return True
     return True
 
 
